@@ -187,7 +187,8 @@ pub fn load(text: &str, code_base: u64) -> Result<Prog, LoadErr> {
         }
         if let Some(l) = t.strip_suffix(':') {
             if l.contains(char::is_whitespace) {
-                return Err(LoadErr::Harness(format!("line {line}: label `{l}`")));
+                // no assembler accepts white space inside a symbol
+                return Err(LoadErr::Text(Viol::new(Class::Text, format!("line {line}: label `{l}` contains white space"))));
             }
             if labels.insert(l.to_string(), ins.len()).is_some() {
                 return Err(LoadErr::Text(Viol::new(Class::Text, format!("line {line}: label `{l}` defined twice"))));
